@@ -112,12 +112,11 @@ def newCell (env : Env) (ty : Nat) (v : Val) (addr : Nat) : Cell :=
 the cache has a reloader; on success tell the reloader. The outcome is the loader's; an error is
 wrapped with the asset's own id (`Error::new(id, err)`). -/
 def loadAndRecord (env : Env) (evalBody : St → St × Outcome) (key : Key) (s : St) : St × Outcome :=
-  let hotR := recordsAsset (env.types key.ty).hot env.hasReloader
-  let (s1, o, deps) := withFrame hotR (some []) evalBody s
-  match o with
-  | .ok v => (if hotR then s1.send (.addAsset key deps) else s1, .ok v)
-  | .err e => (s1, .err (.wrapped key.id e))
-  | o => (s1, o)
+  match withFrame (recordsAsset (env.types key.ty).hot env.hasReloader) (some []) evalBody s with
+  | (s1, .ok v, deps) =>
+    (if recordsAsset (env.types key.ty).hot env.hasReloader then s1.send (.addAsset key deps) else s1, .ok v)
+  | (s1, .err e, _) => (s1, .err (.wrapped key.id e))
+  | (s1, o, _) => (s1, o)
 
 def eval (env : Env) : Nat → St → Prog → St × Outcome
   | 0, s, _ => (s, .diverged)
